@@ -323,6 +323,8 @@ class ExprMixin:
                 return None
             root, sels = base
             bv = self.read_path(st, root, sels)
+            if isinstance(bv.ty, (T.Union, T.Tup)):
+                return None  # immutable value: not a storage path
             if isinstance(bv.ty, T.Rec) and isinstance(node.slice, ast.Constant) and isinstance(node.slice.value, str):
                 return root, sels + [("field", node.slice.value)]
             k = self.ev(node.slice, st)
@@ -752,6 +754,12 @@ class ExprMixin:
         base = self.ev(node.value, st)
         if isinstance(base, SV) and isinstance(base.ty, T.Opt) and isinstance(base.ty.inner, (T.Seq, T.Map)):
             base = self.unwrap(base, st, node)
+        if isinstance(base, SV) and isinstance(base.ty, T.Union):
+            cands = [(tag, aty) for tag, aty in base.ty.alts.items() if isinstance(aty, (T.Tup, T.Seq, T.Map))]
+            if len(cands) == 1:
+                tag, aty = cands[0]
+                self.check(st, base.ty.is_(tag, base.t), "TypeError(subscript)", node)
+                base = SV(base.ty.proj(tag, base.t), aty)
         if isinstance(node.slice, ast.Slice):
             return self.seq_slice(base, node.slice, st, node)
         if isinstance(base.ty, T.Rec) and isinstance(node.slice, ast.Constant) and isinstance(node.slice.value, str):
